@@ -3,9 +3,14 @@
 import os, sys, subprocess
 HERE = os.path.dirname(os.path.abspath(__file__))
 sys.path.insert(0, HERE)
-from fcv import gen_tables, leanproc  # noqa: E402
+from fcv import gen_tables, leanproc, core  # noqa: E402
 
 def main() -> int:
+    with core.BuildLock():
+        return _main()
+
+
+def _main() -> int:
     status = gen_tables.regenerate()
     bad = {n: st for n, st in status.items() if st not in ("same",)}
     if bad:
